@@ -1165,6 +1165,77 @@ def canon_cases(run: Run, impl: Impl) -> None:
             run.disagree(Disagreement({'boolean': b}, impl=r, model=mm, spec=sp, what='canonical-boolean', site='string_value'))
 
 
+# ------------------------------------------------------------------------------ phase 5: decimal -> string on tuples
+def dectuple_cases(run: Run, impl: Impl) -> None:
+    """Decimals that did not come from a literal: `Decimal((sign, digits, exp))` passed as a variable.  The model
+    (`Lex.pyDecOfTuple` = format(d,'f'), then `Lex.decCanon`), the real `string()` / `xs:string()` / `cast as` paths and the
+    numeric spec `XSD.decimalCanon` of ±coef/10^k must agree (theorem `dec_tuple_string_eq_spec`).  A positive exponent is
+    handed to the model as coef*10^exp with scale 0 (the same number and the same `format(d,'f')` text)."""
+    from decimal import Decimal
+    rng = run.rng
+    st = run.stats
+    n = run.scale(1200, 12000)
+    tuples = [(0, (0,), 0), (1, (0,), 0), (1, (0,), -2), (0, (0, 0), -1), (0, (1, 5, 0, 0), -5), (1, (1, 2, 3, 4, 5), -2),
+              (0, (7,), 0), (1, (1, 2, 0, 0), 0), (0, (5,), -1), (1, (5,), -3), (0, (1,), 3), (1, (1, 0), 2), (0, (0,), 4),
+              (0, (1, 0, 0), -2), (1, (9,) * 30, -15), (0, (1,) + (0,) * 25, -25), (0, (1,), -30)]
+    for _ in range(n):
+        nd = rng.choice([1, 1, 2, 3, 5, 8, 20, 40])
+        kind = rng.randrange(6)
+        digs = [rng.randrange(10) for _ in range(nd)]
+        if kind == 0:
+            digs = [0] * nd                                   # zero coefficient, any scale
+        elif kind == 1:
+            z = rng.randint(1, nd)
+            digs[-z:] = [0] * z                               # trailing zeros
+        elif kind == 2:
+            z = rng.randint(1, nd)
+            digs[:z] = [0] * z                                # leading zeros in the tuple
+        exp = -rng.choice([0, 0, 1, 2, nd - 1, nd, nd + 1, nd + rng.randint(0, 6), rng.randint(0, 45)]) \
+            if rng.random() < 0.9 else rng.randint(1, 6)
+        tuples.append((rng.randrange(2), tuple(digs), exp))
+    lines = []
+    for sign, digs, exp in tuples:
+        coef = int(''.join(map(str, digs)))
+        c, k = (coef * 10 ** exp, 0) if exp > 0 else (coef, -exp)
+        lines.append(f'op=dectuple N={sign} C={c} K={k}')
+    ans = run.driver('C10', lines)
+    exprs = [('string($d)', 'fn:string'), ('xs:string($d)', 'xs:string'), ('$d cast as xs:string', 'cast as xs:string'),
+             ('string($d cast as xs:untypedAtomic)', 'cast as xs:untypedAtomic'), ('concat($d, "")', 'fn:concat')]
+    for (sign, digs, exp), a in zip(tuples, ans):
+        f = dict(kv.split('=', 1) for kv in a.split(' ') if '=' in kv)
+        mm, mfmt, sp = f.get('model'), f.get('modelN'), f.get('spec')
+        d = Decimal((sign, digs, exp))
+        case = {'decimal-tuple': [sign, ''.join(map(str, digs)), exp]}
+        coef = int(''.join(map(str, digs)))
+        nontrivial = not (exp == 0 and digs[0] != 0)
+        st.case(['dectuple', sign, ''.join(map(str, digs)), exp], nontrivial=nontrivial)
+        st.count('dectuple:' + ('zero' if coef == 0 else 'posexp' if exp > 0 else 'integer' if exp == 0 else
+                                'fraction-only' if -exp >= len(str(coef)) else 'mixed'))
+        if coef == 0 and sign:
+            st.count('dectuple:negative-zero')
+        if exp < 0 and coef % 10 == 0:
+            st.count('dectuple:trailing-zero')
+        if digs[0] == 0 and len(digs) > 1:
+            st.count('dectuple:leading-zero-digits')
+        try:
+            pf = format(d, 'f')
+        except Exception as e:  # noqa
+            pf = 'ERR:OTHER:' + type(e).__name__
+        if pf != mfmt:
+            run.disagree(Disagreement(case, impl=pf, model=mfmt, what='decimal-format-f-model', site="format(Decimal,'f')"))
+        exs = exprs if rng.random() < 0.25 or len(digs) <= 2 else exprs[:2]
+        for expr, site in exs:
+            kind, r = impl.xpath('2', '1.1', expr, {'d': d})
+            got = str(r) if kind == 'ok' else r
+            st.count('dectuple-path:' + site)
+            if got != sp:
+                run.disagree(Disagreement(dict(case, expr=expr), impl=got, model=mm, spec=sp, what='decimal-tuple-string',
+                                          site='base.py atomic_string_value/string_value(Decimal) via ' + site))
+            elif got != mm:
+                run.disagree(Disagreement(dict(case, expr=expr), impl=got, model=mm, what='decimal-tuple-string-model',
+                                          site='base.py string_value(Decimal) via ' + site))
+
+
 # ------------------------------------------------------------------------------ binary codecs
 def binary_cases(run: Run, impl: Impl) -> None:
     rng = run.rng
@@ -2428,7 +2499,7 @@ def body(run: Run) -> int:
         'xs:anyURI: urllib.parse.urlparse (does it raise, which path does it return) is an oracle of the Lean model '
         'Lex.anyUriCtor; the model covers the library\'s own checks, XSD 1.1 makes every string an anyURI literal',
         'xs:anyAtomicType, xs:NOTATION, xs:error have no usable constructor and are excluded']
-    run.prove(['EPV.Props.C10', 'EPV.Props.C10Tables', 'EPV.Props.C10Tz', 'EPV.Props.C10Dur', 'EPV.Props.C10Greg', 'EPV.Props.C10Names', 'EPV.Props.C10Date', 'EPV.Props.C10Str', 'EPV.Props.C10Uri', 'EPV.Props.C10CastTable'], ['EPV.Spec.XSDLexical', 'EPV.Model.Lexical'])
+    run.prove(['EPV.Props.C10', 'EPV.Props.C10Tables', 'EPV.Props.C10Tz', 'EPV.Props.C10Dur', 'EPV.Props.C10Greg', 'EPV.Props.C10Names', 'EPV.Props.C10Date', 'EPV.Props.C10Str', 'EPV.Props.C10Uri', 'EPV.Props.C10CastTable', 'EPV.Props.C10DecStr'], ['EPV.Spec.XSDLexical', 'EPV.Model.Lexical'])
     try:
         impl = Impl()
         rng = run.rng
@@ -2450,6 +2521,7 @@ def body(run: Run) -> int:
         for i in range(0, len(cases), 3000):
             lexical_cases(run, impl, cases[i:i + 3000])
         canon_cases(run, impl)
+        dectuple_cases(run, impl)
         binary_cases(run, impl)
         cast_cases(run, impl)
         tz_cases(run, impl)
